@@ -348,6 +348,9 @@ def run(ctx):
     quic = quic + ["quic_pipeline_corr"]
     import translate                 # decision-logic functions re-translated from the source and proved equal to the model
     _tm, _tt = translate.wire(ctx, "C03")
+    import oncode_thms               # the property theorems stated on the regenerated definitions themselves (Props/OnCode)
+    _om, _ot = oncode_thms.wire("C03")
+    _tm, _tt = _tm + _om, _tt + _ot
     import export_inputs_thms, export_inputs2_thms, export_faults_thms, c02_loss_thms          # whole-program form: bystander conversations unaffected (Props/ExportInputs)
     ctx.prove(["TLX.Props.C03", "TLX.Props.C04", "TLX.Props.C01Pipeline"] + c02_model.modules(quic) + _tm + export_inputs_thms.MODULES + export_inputs2_thms.MODULES + export_faults_thms.MODULES + c02_loss_thms.MODULES)
     ctx.require_theorems(export_inputs_thms.THEOREMS_C03 + export_inputs2_thms.THEOREMS_NAT + export_inputs2_thms.THEOREMS_C03 + export_faults_thms.THEOREMS + c02_loss_thms.THEOREMS)
